@@ -40,10 +40,10 @@ def enumerate_paths(B, start=0, stops=None, max_paths=4096, allow_loops=False):
     return out
 
 
-def describe_origin(B, x):
-    """canonical, position-free description of where a value comes from"""
+def describe_origin(B, x, restrict=None):
+    """canonical, position-free description of where a value comes from (optionally path-restricted)"""
     parts = []
-    for o in sorted(B.origins(x), key=str):
+    for o in sorted(B.origins(x, restrict=restrict), key=str):
         if o[0] == "param":
             parts.append("param:%s%s" % (o[1], "".join("." + f for f in o[2])))
         elif o[0] == "const":
@@ -92,8 +92,9 @@ def type_variants(F, B, place):
     return None
 
 
-def atom(B, F, sb, label):
+def atom(B, F, sb, label, restrict=None):
     """(description, outcome) of taking edge `label` out of switch block sb"""
+    D = lambda x: describe_origin(B, x, restrict)
     e = B.cond(sb)
     neg = False
     while e[0] == "not":
@@ -122,10 +123,10 @@ def atom(B, F, sb, label):
                 out = "otherwise"
         else:
             out = names[label] if names and label < len(names) else str(label)
-        return ("discr(%s)" % describe_origin(B, e[1]), out)
+        return ("discr(%s)" % D(e[1]), out)
     if e[0] == "call":
         callee = q.base_name(e[1])
-        args = [describe_origin(B, a) for a in e[2]]
+        args = [D(a) for a in e[2]]
         short = callee.rsplit("::", 1)[-1]
         if short in ("eq", "ne") and len(args) == 2:
             tv = truth()
@@ -134,7 +135,7 @@ def atom(B, F, sb, label):
             return ("eq(%s, %s)" % tuple(args), tv)
         return ("call %s(%s)" % (callee, ", ".join(args)), truth())
     if e[0] == "bin":
-        a, b = describe_origin(B, e[2]), describe_origin(B, e[3])
+        a, b = D(e[2]), D(e[3])
         op = e[1]
         tv = truth()
         if op == "Ne":
@@ -145,17 +146,19 @@ def atom(B, F, sb, label):
             op, tv = "Gt", (not tv if tv is not None else None)
         return ("%s(%s, %s)" % (op, a, b), tv)
     # plain operand
-    return ("val(%s)" % describe_origin(B, e[1]), truth() if is_bool else label)
+    return ("val(%s)" % D(e[1]), truth() if is_bool else label)
 
 
 def path_atoms(B, F, path):
     out = []
+    prefix = []
     for b, lab in path:
+        prefix.append(b)
         if B.blocks[b]["term"]["k"] == "switch":
             t = B.blocks[b]["term"]
             if t.get("exp") and "Await" in t["exp"]:
                 continue
-            out.append(atom(B, F, b, lab))
+            out.append(atom(B, F, b, lab, restrict=list(prefix)))
     return out
 
 
@@ -174,3 +177,82 @@ def returned_variant(B, path):
         if t["k"] == "call" and t["dest"]["l"] == 0 and not t["dest"]["p"]:
             last = ("call", q.base_name(mir.callee_of(t)[1]), b)
     return last
+
+
+# ----------------------------------------------------------------------------------------
+# decision tables with one-level-at-a-time inlining of workspace helpers
+
+def _const_truth(desc):
+    """truth value of an atom description that became constant after parameter substitution, else None"""
+    import re
+    m = re.fullmatch(r"val\(const:(True|False|1|0)\)", desc)
+    if m:
+        return m.group(1) in ("True", "1")
+    return None
+
+
+def decision_rows(F, fid, depth=2, _memo=None):
+    """[(atoms, result)] over all acyclic paths of fid; a path that returns the result of a workspace helper is expanded with the
+    helper's rows, helper parameters substituted by the caller's argument descriptions and constant-bound atoms evaluated
+    (infeasible rows dropped). result = variant name / ('use', ..) / ('call', callee, block)."""
+    _memo = _memo if _memo is not None else {}
+    if fid in _memo:
+        return _memo[fid]
+    fn = F.fns.get(fid)
+    if fn is None:
+        return []
+    B = mir.Body(fn, F)
+    rows = []
+    for p in enumerate_paths(B, allow_loops=True):
+        atoms = path_atoms(B, F, p)
+        ret = returned_variant(B, p)
+        if isinstance(ret, tuple) and ret[0] == "call" and depth > 0:
+            t = B.blocks[ret[2]]["term"]
+            w, r = mir.callee_of(t)
+            callee = r or w
+            cfn = F.fns.get(callee)
+            if cfn is not None and cfn["kind"] in ("Fn", "AssocFn"):
+                Bc = mir.Body(cfn, F)
+                prefix = []
+                for b, _ in p:
+                    prefix.append(b)
+                    if b == ret[2]:
+                        break
+                subst = {}
+                for i, a in enumerate(t["args"]):
+                    nm = Bc.locals[i + 1].get("name") or str(i + 1)
+                    if a["k"] == "const" and a.get("val") is not None and not isinstance(a.get("val"), dict):
+                        v = a["val"]
+                        subst["param:" + nm] = "const:%s" % (bool(v) if a.get("ty") == "bool" else v)
+                    else:
+                        subst["param:" + nm] = describe_origin(B, a, prefix)
+                for satoms, sret in decision_rows(F, callee, depth - 1, _memo):
+                    new, feasible = [], True
+                    for d, v in satoms:
+                        for k in sorted(subst, key=len, reverse=True):
+                            d = _subst_param(d, k, subst[k])
+                        tv = _const_truth(d)
+                        if tv is not None:
+                            if v is not None and v != tv:
+                                feasible = False
+                                break
+                            continue
+                        new.append((d, v))
+                    if feasible:
+                        rows.append((atoms + new, sret))
+                continue
+        rows.append((atoms, ret))
+    _memo[fid] = rows
+    return rows
+
+
+def _subst_param(desc, key, val):
+    """replace `key` (param:name) when followed by a non-identifier char; field paths are appended to param-valued substitutions"""
+    import re
+
+    def rep(m):
+        tail = m.group(1) or ""
+        if val.startswith("param:") or val.startswith("call:"):
+            return val + tail
+        return val if not tail else val + tail
+    return re.sub(re.escape(key) + r"((?:\.[A-Za-z0-9_@+]+)*)(?![A-Za-z0-9_])", rep, desc)
